@@ -5,11 +5,13 @@ import (
 	"errors"
 	"fmt"
 	"io"
+	"io/fs"
 	"math/rand"
 	"os"
 	"reflect"
 	"sort"
 	"strings"
+	"syscall"
 
 	gerrors "github.com/acquirecloud/golibs/errors"
 	"google.golang.org/grpc/codes"
@@ -476,9 +478,15 @@ func driveErrs(opt *Options) error {
 	for t := 0; t < opt.N; t++ {
 		if t%8 == 7 {
 			code := rnd.Intn(17)
+			op := "Code"
+			if rnd.Intn(6) == 0 {
+				// a status code beyond the seventeen the library knows (a newer peer, a proxy): no class is promised for
+				// it, but nothing may panic and a non-OK code never maps to nil
+				code, op = []int{17, 18, 42, 99, 1000, 65535}[rnd.Intn(6)], "CodeX"
+			}
 			v := status.New(codes.Code(code), errsRandText(rnd, mk, fixed)).Err()
 			var obs errsObs
-			ev := map[string]any{"op": "Code", "code": code}
+			ev := map[string]any{"op": op, "code": code}
 			if p, pv := callPanics(func() { obs = errsObserve(v, nil) }); p {
 				ev["crash"] = fmt.Sprint(pv)
 			} else {
@@ -493,6 +501,18 @@ func driveErrs(opt *Options) error {
 		ev := map[string]any{"op": "Chain", "class": c.name, "depth": depth, "emb": emb}
 		p, pv := callPanics(func() {
 			v := c.err
+			if rnd.Intn(4) == 0 {
+				// the class reached through an Is METHOD, as the errors of the os package do (a syscall.Errno inside a
+				// *fs.PathError), not through identity with the sentinel
+				switch c.name {
+				case "NotExist":
+					v = &fs.PathError{Op: "open", Path: "/no/such/file", Err: syscall.ENOENT}
+				case "Exist":
+					v = &fs.PathError{Op: "mkdir", Path: "/tmp", Err: syscall.EEXIST}
+				case "NotAuthorized":
+					v = &fs.PathError{Op: "open", Path: "/root/x", Err: syscall.EACCES}
+				}
+			}
 			var obj *errsObj
 			for d := 0; d <= depth; d++ {
 				if emb == d {
